@@ -88,6 +88,9 @@ pub fn new_for_path_rec(base_path: &PathBuf, sub_path: Vec<String>) -> State {
     let subs: State = entries(base_path)
         .into_iter()
         .filter(|path| path.is_dir())
+        // ".iwe" holds the tool's own files (configuration, the last prompt and answer of an
+        // AI action, which quote the notes' headings): they are not notes
+        .filter(|path| path.file_name().map_or(true, |name| name != ".iwe"))
         .flat_map(|path| {
             let mut sub = sub_path.clone();
             // (a name that is not valid UTF-8 is converted lossily, as file names are)
